@@ -19,54 +19,61 @@ open Nsq.Spec.RegistrySpec
 
 /-- "No byte sequence on the TCP port can crash nsqlookupd", for a given shape of IDENTIFY. -/
 def lookup_no_panic_stmt (v : Variant) : Prop :=
-  ∀ (decode : List UInt8 → Option Info) (r : Registry) (p : Nat) (now : Int) (inp : List UInt8),
-    (handle v decode r p now inp).fin ≠ .panic
+  ∀ (decode : List UInt8 → Option Info) (wf : Nat → Bool) (r : Registry) (p : Nat) (now : Int) (inp : List UInt8),
+    (handleW v decode wf r p now inp).fin ≠ .panic
 
 /-- The code with fix F2 (size range check before `make`): no input panics. -/
 theorem lookup_no_panic : lookup_no_panic_stmt fixedV :=
-  fun decode r p now inp => handle_fixed_no_panic decode r p now inp
+  fun decode wf r p now inp => handleW_fixed_no_panic decode wf r p now inp
 
 /-- The code before fix F2: FALSE. Witness: magic, `IDENTIFY\n`, size `FF FF FF FF`
 (13 bytes after the magic) reaches `make([]byte, -1)`; connection goroutines have no
 `recover`, the process dies. -/
 theorem lookup_no_panic_unfixed_false : ¬ lookup_no_panic_stmt unfixedV := by
   intro h
-  exact h (fun _ => none) init 1 0 (magicV1 ++ cmdIDENTIFY ++ [10, 255, 255, 255, 255]) (by decide)
+  exact h (fun _ => none) (fun _ => true) init 1 0 (magicV1 ++ cmdIDENTIFY ++ [10, 255, 255, 255, 255]) (by decide)
 
 /-- non-vacuity: on the same witness the fixed code answers `E_BAD_BODY` and closes -/
 example : (handle fixedV (fun _ => none) init 1 0 (magicV1 ++ cmdIDENTIFY ++ [10, 255, 255, 255, 255])).fin = .fatal := by
   decide
 
 /-- Malformed input gets one of the documented errors, and every error ends the connection:
-the replies of a connection are successes (`OK` / the IDENTIFY response) followed — exactly
-when the loop ended on an error — by one `E_INVALID / E_BAD_TOPIC / E_BAD_CHANNEL / E_BAD_BODY`
-reply; a wrong magic gets `E_BAD_PROTOCOL` only; fewer than four bytes get nothing. -/
-theorem errors_documented (decode : List UInt8 → Option Info) (r : Registry) (p : Nat) (now : Int)
-    (inp : List UInt8) :
-    let res := handle fixedV decode r p now inp
+the replies a peer receives are successes (`OK` / the IDENTIFY response) followed — exactly when
+the loop ended on an error — by one `E_INVALID / E_BAD_TOPIC / E_BAD_CHANNEL / E_BAD_BODY` reply
+(unless the peer stopped reading: `wf`); a wrong magic gets `E_BAD_PROTOCOL` only; fewer than
+four bytes get nothing. -/
+theorem errors_documented (decode : List UInt8 → Option Info) (wf : Nat → Bool) (r : Registry) (p : Nat)
+    (now : Int) (inp : List UInt8) :
+    let res := handleW fixedV decode wf r p now inp
     (res.fin = .shortMagic ∧ res.replies = []) ∨
     (res.fin = .badMagic ∧ res.replies = [ascii "E_BAD_PROTOCOL"]) ∨
     ∃ oks, (∀ b ∈ oks, okReply b) ∧
       ((res.fin = .eof ∧ res.replies = oks) ∨
-       (res.fin = .fatal ∧ ∃ e, errReply e ∧ res.replies = oks ++ [e])) := by
+       (res.fin = .fatal ∧ ∃ e, errReply e ∧ (res.replies = oks ++ [e] ∨ res.replies = oks)) ∨
+       (res.fin = .writeFail ∧ res.replies = oks)) := by
   intro res
-  have hres : res = handle fixedV decode r p now inp := rfl
+  have hres : res = handleW fixedV decode wf r p now inp := rfl
   clear_value res
-  unfold handle at hres
+  unfold handleW at hres
   split at hres
   · split at hres
     · rename_i body _
       subst hres
       right; right
-      have hs := ioLoop_shape fixedV decode p now (body.length + 1) r body []
+      have hs := ioLoop_shape fixedV decode wf p now (body.length + 1) r body []
       obtain ⟨oks, hoks, hc⟩ := hs
       refine ⟨oks, hoks, ?_⟩
       cases hc with
       | inl h => exact Or.inl ⟨h.1, by simpa using h.2⟩
       | inr h =>
         cases h with
-        | inl h => obtain ⟨hf, e, he, hr⟩ := h; exact Or.inr ⟨hf, e, he, by simpa using hr⟩
-        | inr h => exact absurd h (ioLoop_fixed_no_panic decode p now _ r _ [])
+        | inl h =>
+          obtain ⟨hf, e, he, hr⟩ := h
+          exact Or.inr (Or.inl ⟨hf, e, he, by simpa using hr⟩)
+        | inr h =>
+          cases h with
+          | inl h => exact absurd h (ioLoop_fixed_no_panic decode wf p now _ r _ [])
+          | inr h => exact Or.inr (Or.inr ⟨h.1, by simpa using h.2⟩)
     · subst hres; right; left; exact ⟨rfl, rfl⟩
   · subst hres; left; exact ⟨rfl, rfl⟩
 
@@ -134,27 +141,27 @@ example : validName (List.replicate 65 110) = false ∧ validName (List.replicat
 peer is another connection `q` is unchanged — its producer entries under every key (hence its
 topics, channels, tombstones; the key of an entry it holds cannot be garbage-collected) and
 its peer record (last ping, identity). -/
-theorem tcp_isolation (v : Variant) (decode : List UInt8 → Option Info) (r : Registry) (p : Nat) (now : Int)
-    (inp : List UInt8) (q : Nat) (hq : q ≠ p) :
-    let r' := (handle v decode r p now inp).reg
+theorem tcp_isolation (v : Variant) (decode : List UInt8 → Option Info) (wf : Nat → Bool) (r : Registry) (p : Nat)
+    (now : Int) (inp : List UInt8) (q : Nat) (hq : q ≠ p) :
+    let r' := (handleW v decode wf r p now inp).reg
     (∀ k, getP r'.db k q = getP r.db k q) ∧ mget r'.peers q = mget r.peers q ∧
     (∀ k, (getP r.db k q).isSome = true → has r'.db k = true) := by
   intro r'
-  have hf := frame_handle v decode r p now inp
+  have hf := frame_handleW v decode wf r p now inp
   refine ⟨fun k => hf.1 k q hq, hf.2 q hq, ?_⟩
   intro k hk
   apply Nsq.Proofs.RegistryRefine.has_of_getP r'.db k q
   rw [hf.1 k q hq]; exact hk
 
 /-- … in terms of the answers: the bystander's view in the plain registry is unchanged. -/
-theorem tcp_isolation_spec (v : Variant) (decode : List UInt8 → Option Info) (r : Registry) (p : Nat)
-    (now : Int) (inp : List UInt8) (q : Nat) (hq : q ≠ p) :
-    let s' := abs (handle v decode r p now inp).reg
+theorem tcp_isolation_spec (v : Variant) (decode : List UInt8 → Option Info) (wf : Nat → Bool) (r : Registry)
+    (p : Nat) (now : Int) (inp : List UInt8) (q : Nat) (hq : q ≠ p) :
+    let s' := abs (handleW v decode wf r p now inp).reg
     (∀ t, s'.topicReg q t ↔ (abs r).topicReg q t) ∧ (∀ t c, s'.chanReg q t c ↔ (abs r).chanReg q t c) ∧
     (∀ t τ, s'.tomb q t τ ↔ (abs r).tomb q t τ) ∧ (s'.live q ↔ (abs r).live q) ∧ s'.peer q = (abs r).peer q ∧
     (∀ t, (abs r).topicReg q t → s'.knownTopic t) ∧ (∀ t c, (abs r).chanReg q t c → s'.knownChan t c) := by
   intro s'
-  have h := tcp_isolation v decode r p now inp q hq
+  have h := tcp_isolation v decode wf r p now inp q hq
   refine ⟨?_, ?_, ?_, ?_, ?_, ?_, ?_⟩
   · intro t; simp only [s', abs, h.1]
   · intro t c; simp only [s', abs, h.1]
